@@ -52,6 +52,37 @@ type AppDB struct {
 
 	isDirtyPrice bool
 	price        *TimePrice
+
+	batch db.Batch
+}
+
+// set writes to the open batch if there is one, otherwise directly to the database
+func (appDB *AppDB) set(key, value []byte) error {
+	if appDB.batch != nil {
+		return appDB.batch.Set(key, value)
+	}
+	return appDB.db.Set(key, value)
+}
+
+// StartBatch makes the following writes of the application records atomic: they reach the disk together on WriteBatch
+func (appDB *AppDB) StartBatch() {
+	appDB.batch = appDB.db.NewBatch()
+}
+
+// WriteBatch writes the records collected since StartBatch in one atomic batch, panics on error
+func (appDB *AppDB) WriteBatch() {
+	if appDB.batch == nil {
+		return
+	}
+	batch := appDB.batch
+	appDB.batch = nil
+	defer batch.Close()
+
+	appDB.WG.Wait()
+
+	if err := batch.WriteSync(); err != nil {
+		panic(err)
+	}
 }
 
 // Close closes db connection, panics on error
@@ -87,7 +118,7 @@ func (appDB *AppDB) GetLastBlockHash() []byte {
 func (appDB *AppDB) SetLastBlockHash(hash []byte) {
 	appDB.WG.Wait()
 
-	if err := appDB.db.Set([]byte(hashPath), hash); err != nil {
+	if err := appDB.set([]byte(hashPath), hash); err != nil {
 		panic(err)
 	}
 }
@@ -122,7 +153,7 @@ func (appDB *AppDB) SetLastHeight(height uint64) {
 
 	appDB.WG.Wait()
 
-	if err := appDB.db.Set([]byte(heightPath), h); err != nil {
+	if err := appDB.set([]byte(heightPath), h); err != nil {
 		panic(err)
 	}
 
@@ -141,7 +172,7 @@ func (appDB *AppDB) SaveStartHeight() {
 
 	appDB.WG.Wait()
 
-	if err := appDB.db.Set([]byte(startHeightPath), h); err != nil {
+	if err := appDB.set([]byte(startHeightPath), h); err != nil {
 		panic(err)
 	}
 }
@@ -217,7 +248,7 @@ func (appDB *AppDB) FlushValidators() {
 
 	appDB.WG.Wait()
 
-	if err := appDB.db.Set([]byte(validatorsPath), data); err != nil {
+	if err := appDB.set([]byte(validatorsPath), data); err != nil {
 		panic(err)
 	}
 	appDB.validators = nil
@@ -297,7 +328,7 @@ func (appDB *AppDB) SaveBlocksTime() {
 
 	appDB.WG.Wait()
 
-	if err := appDB.db.Set([]byte(blocksTimePath), data); err != nil {
+	if err := appDB.set([]byte(blocksTimePath), data); err != nil {
 		panic(err)
 	}
 }
@@ -378,7 +409,7 @@ func (appDB *AppDB) SaveVersions() {
 
 	appDB.WG.Wait()
 
-	if err := appDB.db.Set([]byte(versionsPath), data); err != nil {
+	if err := appDB.set([]byte(versionsPath), data); err != nil {
 		panic(err)
 	}
 
@@ -421,7 +452,7 @@ func (appDB *AppDB) SaveEmission() {
 	}
 
 	appDB.WG.Wait()
-	if err := appDB.db.Set([]byte(emissionPath), appDB.emission.Bytes()); err != nil {
+	if err := appDB.set([]byte(emissionPath), appDB.emission.Bytes()); err != nil {
 		panic(err)
 	}
 
@@ -568,7 +599,7 @@ func (appDB *AppDB) SavePrice() {
 		panic(err)
 	}
 
-	err = appDB.db.Set([]byte(pricePath), bytes)
+	err = appDB.set([]byte(pricePath), bytes)
 	if err != nil {
 		panic(err)
 	}
